@@ -50,6 +50,9 @@ pub struct Case {
     /// public fields (new safety table, last environment body removed) and queried again
     #[serde(default)]
     pub reconfigure: Option<Reconf>,
+    /// > 1: the queries are issued by that many concurrent simulated caller tasks sharing the robot
+    #[serde(default)]
+    pub clients: usize,
 }
 
 #[derive(Clone, Debug, Serialize, Deserialize)]
@@ -138,35 +141,70 @@ fn mesh_bits(m: &parry3d::shape::TriMesh, out: &mut Vec<u64>) {
     out.push(h);
 }
 
+fn one_query(robot: &KinematicsWithShape, q: &Query) -> QObs {
+    let sols: [Sols; 4] = std::array::from_fn(|w| entry(robot, w, q));
+    let deleg = delegated(robot, &q.q);
+    let mut pos = Vec::new();
+    let pr = robot.positioned_robot(&q.q);
+    pos.push(pr.joints.len() as u64);
+    for j in &pr.joints {
+        iso32_bits(&j.transform, &mut pos);
+        mesh_bits(j.joint_body, &mut pos);
+    }
+    match &pr.tool {
+        None => pos.push(0),
+        Some(t) => {
+            pos.push(1);
+            iso32_bits(&t.transform, &mut pos);
+            mesh_bits(t.joint_body, &mut pos);
+        }
+    }
+    pos.push(pr.environment.len() as u64);
+    for e in &pr.environment {
+        iso32_bits(&e.pose, &mut pos);
+        mesh_bits(&e.mesh, &mut pos);
+    }
+    QObs { sols, delegated: deleg, positioned: pos }
+}
+
 fn execute(robot: &Arc<KinematicsWithShape>, case: &Case, cfg: &SimCfg) -> SimOut<Vec<QObs>> {
     let robot = robot.clone();
     let queries = case.queries.clone();
+    let clients = case.clients.max(1);
     sim::simulate(cfg, move || {
-        let mut out = Vec::new();
-        for q in &queries {
-            let sols: [Sols; 4] = std::array::from_fn(|w| entry(robot.as_ref(), w, q));
-            let deleg = delegated(robot.as_ref(), &q.q);
-            let mut pos = Vec::new();
-            let pr = robot.positioned_robot(&q.q);
-            pos.push(pr.joints.len() as u64);
-            for j in &pr.joints {
-                iso32_bits(&j.transform, &mut pos);
-                mesh_bits(j.joint_body, &mut pos);
-            }
-            match &pr.tool {
-                None => pos.push(0),
-                Some(t) => {
-                    pos.push(1);
-                    iso32_bits(&t.transform, &mut pos);
-                    mesh_bits(t.joint_body, &mut pos);
+        if clients <= 1 {
+            return queries.iter().map(|q| one_query(robot.as_ref(), q)).collect();
+        }
+        // concurrent callers: every caller issues ALL queries (so that identical work overlaps),
+        // caller 0's answers are the observed ones, the others' must be identical to them
+        let slots: Arc<std::sync::Mutex<Vec<Vec<QObs>>>> = Arc::new(std::sync::Mutex::new(vec![Vec::new(); clients]));
+        let mut hs = Vec::new();
+        for c in 0..clients {
+            let (robot, queries, slots) = (robot.clone(), queries.clone(), slots.clone());
+            hs.push(shuttle::thread::spawn(move || {
+                // callers start at different queries so that different requests overlap
+                let n = queries.len();
+                let mut mine: Vec<Option<QObs>> = vec![None; n];
+                for k in 0..n {
+                    let i = (k + c) % n;
+                    mine[i] = Some(one_query(robot.as_ref(), &queries[i]));
+                }
+                slots.lock().unwrap()[c] = mine.into_iter().map(|o| o.unwrap()).collect();
+            }));
+        }
+        for h in hs {
+            h.join().unwrap();
+        }
+        let all = slots.lock().unwrap().clone();
+        // fold: if any caller disagrees with caller 0 on the solution lists, expose the
+        // disagreeing answer so that the judge sees it
+        let mut out = all[0].clone();
+        for c in 1..clients {
+            for i in 0..out.len() {
+                if all[c][i].sols != out[i].sols {
+                    out[i] = all[c][i].clone();
                 }
             }
-            pos.push(pr.environment.len() as u64);
-            for e in &pr.environment {
-                iso32_bits(&e.pose, &mut pos);
-                mesh_bits(&e.mesh, &mut pos);
-            }
-            out.push(QObs { sols, delegated: deleg, positioned: pos });
         }
         out
     })
@@ -209,7 +247,7 @@ fn judge_with(
             if rc.drop_last_env && !case.cell.env.is_empty() {
                 r.body.collision_environment.pop();
             }
-            let case2 = Case { cell: cell2, queries: case.queries.clone(), cfgs: vec![case.cfgs[0].clone()], reconfigure: None };
+            let case2 = Case { cell: cell2, queries: case.queries.clone(), cfgs: vec![case.cfgs[0].clone()], reconfigure: None, clients: case.clients };
             fails.extend(judge_phase(&case2, robot, &mut |_, out| observe(usize::MAX, out), &mut |_, _, _| {}, "/after-reconfiguration"));
         }
     }
@@ -394,6 +432,11 @@ fn simplifications(case: &Case) -> Vec<Case> {
         c.reconfigure = None;
         out.push(c);
     }
+    if case.clients > 1 {
+        let mut c = case.clone();
+        c.clients = 1;
+        out.push(c);
+    }
     if case.queries.len() > 1 {
         for i in 0..case.queries.len() {
             let mut c = case.clone();
@@ -560,7 +603,8 @@ pub fn gen_case(seed: u64, shard: u64, run: u64, t: &Tier) -> Case {
     } else {
         None
     };
-    Case { cell, queries, cfgs, reconfigure }
+    let clients = if knobs.chance(0.3) { knobs.range_usize(2, 3) } else { 1 };
+    Case { cell, queries, cfgs, reconfigure, clients }
 }
 
 pub fn run(tier_name: &str, seed: u64) -> i32 {
@@ -572,6 +616,9 @@ pub fn run(tier_name: &str, seed: u64) -> i32 {
             let case = gen_case(seed, shard as u64, run as u64, &t);
             tally.bump(&format!("ctor_{:?}", case.cell.ctor).to_lowercase().replace(['(', ')'], "_"), 1);
             let mut robot = Arc::new(case.cell.build_robot());
+            if case.clients > 1 {
+                tally.bump("scenarios_with_concurrent_callers", 1);
+            }
             let scen_hash = simctx::name_hash(&serde_json::to_string(&(&case.cell, &case.queries)).unwrap());
             let mut st: Vec<(String, u64)> = Vec::new();
             let mut sample: Option<Value> = None;
@@ -653,6 +700,7 @@ pub fn run(tier_name: &str, seed: u64) -> i32 {
                     signature: f.signature.clone(),
                     detail,
                     case: json!({"check": "C11", "case": min}),
+                    origin: Some((shard, run)),
                 });
             }
         }
@@ -677,7 +725,7 @@ pub fn run(tier_name: &str, seed: u64) -> i32 {
         }),
         exhaustive: false,
     };
-    report::finish(meta, tally, wall, &|v| replay_all(&v["case"]))
+    report::finish(meta, tally, wall, &|v| replay_all(&v["case"]), &|shard, run| case_json(tier_name, seed, shard, run))
 }
 
 
@@ -693,4 +741,9 @@ pub fn digest(seed: u64, i: u64) -> Vec<String> {
             format!("C11 {i} {j} {} {:016x} {}", out.log.hex(), simctx::name_hash(&format!("{:?}", out.result)), out.schedule.len())
         })
         .collect()
+}
+
+pub fn case_json(tier_name: &str, seed: u64, shard: usize, run: usize) -> Option<Value> {
+    let t = tier(tier_name);
+    Some(json!({"check": "C11", "case": gen_case(seed, shard as u64, run as u64, &t)}))
 }
